@@ -45,6 +45,14 @@ CLAIMED = {
    "the complete single-edit neighbourhood of fixed small directories is enumerated. Histories of Planner.WritePlan / WriteCheckpoint / MemDir.CopyFiles / `migrate new|hash|diff|import` and tamperings are replayed with the invariant that API Validate, `migrate validate` and `migrate apply` agree with the model after every step.",
    "SHA-256 collisions are ignored. Content of `atlas:sum ignore` files and trailing ignored files are outside the protected sequence by the format's own definition (model says must still validate). Whitespace-only edits of atlas.sum are not generated (unspecified).",
    "4/C06"),
+ "C01": ("exploration",
+   "rapid PBT over (current, desired) schema pairs executed on a real SQLite engine; convergence oracle = empty re-diff plus an Atlas-independent PRAGMA catalog comparison against a reference database; sample through the real CLI",
+   "Pairs (A, edit*(A)) and independent pairs from a schema model covering the property's feature list are materialised on in-memory SQLite engines (A by native DDL, atlas-style DDL or Atlas itself; desired = inspection of a reference engine built from B, optionally through MarshalHCL/EvalHCLBytes). "
+   "The CLI's diff/apply path (RealmDiff+DiffNormalized, ApplyChanges in a transaction with the CLI's plan options) is replicated in-process. Checked: every planned statement executes; re-inspect+re-diff is empty; "
+   "the harness' own catalog (pragma_table_xinfo/index_list/index_xinfo/foreign_key_list + tokenised CREATE text) of the live database equals that of the reference modulo the equivalences Atlas documents. "
+   "A sample of pairs goes through `atlas schema apply --auto-approve` + `atlas schema diff` on database files with --to hcl / sql (dev-url) / url.",
+   "Tables are empty (data is C05). Type changes inside one Atlas type class, column order, quoting of defaults on columns with affinity, FK/check names are not demanded. Inline UNIQUE constraints are not generated here (see DESIGN section 5). Plan-time refusals are counted as rejected.",
+   "4/C01"),
 }
 PENDING_REASON = "check not built yet in this session (planned in DESIGN.md section 4; will be claimed once its quick check is green and sensitivity-tested)"
 
